@@ -69,10 +69,26 @@ def compileEnv : Env := { hasCtx := false, hasBinds := true, compileMode := true
 def compileBound (B : Builtins) (name : Str) : Bool :=
   (B.func name).isSome || compileEnv.isMacro name || (typeByName name).isSome
 
-/-- `check_for_const`: a call node is evaluated now iff it is closed and clock free, evaluation succeeds and
-    the run met no name it could not resolve (`!i.met_unresolved_name()`: no marker in the log). -/
+mutual
+/-- `names_clock_function`: the code, or a code block operand inside it, pushes the name of a clock function
+    (`'x'.now()` reaches the clock through a method name, which is not among the identifiers the program reads). -/
+def namesClock : List Instr → Bool
+  | [] => false
+  | i :: is => namesClockI i || namesClock is
+def namesClockI : Instr → Bool
+  | .push v => namesClockV v
+  | _ => false
+def namesClockV : Val → Bool
+  | .ident n => clockFunctions.any (·.toList = n)
+  | .code c => namesClock c
+  | _ => false
+end
+
+/-- `check_for_const`: a call node is evaluated now iff it is closed and clock free (also in method position),
+    evaluation succeeds and the run met no name it could not resolve (`!i.met_unresolved_name()`: no marker in
+    the log). -/
 def checkForConst (B : Builtins) (idents : List Str) (code : List Instr) : CP :=
-  let closed := idents.all fun n => compileBound B n && !(clockFunctions.any (·.toList = n))
+  let closed := (idents.all fun n => compileBound B n && !(clockFunctions.any (·.toList = n))) && !(namesClock code)
   if !closed then .code code
   else
     let o := runAt B maxDepth compileEnv code true []
